@@ -56,18 +56,16 @@ end
 
 /-- the components of a URL of the class: no `|`; netloc inside the grammar (`wfNetloc`: at
 most one `@`, host bracketed or free of `:[]`, port free of `:[]`); a host; no raw bracket in
-the userinfo; in suffix-aware mode `wfHostSA`: a plain host has no `%` (CPython's `.hostname`
-does not lower-case what follows a `%`) — nothing is asked of a bracketed literal, and
-`split_suffix` is not consulted -/
-def inClassParts (sa : Bool) (p : Parts) : Bool :=
+the userinfo.  The same class for both modes; `split_suffix` is not consulted -/
+def inClassParts (p : Parts) : Bool :=
   noBar p && wfNetloc p.netloc && (specHost p.netloc != []) &&
-    noneOf ['[', ']'] ((authOf p.netloc).getD []) && (!sa || wfHostSA p.netloc)
+    noneOf ['[', ']'] ((authOf p.netloc).getD [])
 
 /-- **the class of URL strings** of the string-level round trip: the (modelled) parser accepts
 `ensure_protocol(u)` and its components are in `inClassParts` -/
-def inClass (sa : Bool) (u : Str) : Bool :=
+def inClass (u : Str) : Bool :=
   match urlParts u with
   | none => false
-  | some p => inClassParts sa p
+  | some p => inClassParts p
 
 end Ural.Lru
